@@ -1,8 +1,9 @@
 ------------------------------ MODULE GenConn ------------------------------
 EXTENDS Conn, Json
-Emit == Done => PrintT(ToJson([reqs |-> cs,
+Emit == Done => PrintT(ToJson([reqs |-> cs, sd |-> sd,
            expP |-> [per |-> [j \in 1..Len(cs) |-> [statuses |-> Statuses(cs[j]), normal |-> Normal(cs[j]),
-                                                     interim |-> Interim(cs[j])]],
-                     firstend |-> FirstEnd(cs, 1)],
+                                                     interim |-> Interim(cs[j]),
+                                                     announce |-> MustAnnounce(cs[j], sd)]],
+                     firstend |-> FirstEndSD(cs, sd)],
            expM |-> [resps |-> resps, closed |-> closed]]))
 ============================================================================
